@@ -439,8 +439,8 @@ def check(ctx):
         ctx.ob('C05.R5.permutation', 'order_moves:%s' % ids[r['id']], False,
                'the move list is modified other than by std::swap of two of its elements (%s)' % k,
                site=om.loc(n))
-    ctx.ob('C05.R5.permutation', 'order_moves', n_sw >= 2 and n_sw % 2 == 0,
-           'order_moves writes the list only through std::swap(begin[i], begin[j]) (%d operands)' % n_sw,
+    ctx.ob('C05.R5.permutation', 'order_moves', n_sw % 2 == 0,
+           'order_moves writes the list only by swapping two of its elements (std::swap / std::iter_swap; %d operands)' % n_sw,
            site=om.loc())
     # swap indices bounded by n_moves: both operands are begin[<loop var>] of counting loops < n_moves
     # (bounds themselves are C10's obligation)
@@ -528,6 +528,22 @@ def _classify_use(p, f, n, _depth=0):
             return 'sensitive', 'arg:' + short(nm)
         if k == 'ReturnStmt':
             return 'sensitive', 'return'
+        if k == 'LambdaExpr' and _depth < 3:
+            # captured by a lambda: what its body does with the captured variable
+            name_ = (strip_casts(cur).get('ref') or {}).get('n')
+            g = p.funcs.get(par.get('lambda'))
+            if g is None and '@' in (par.get('lambda') or ''):
+                lid = par['lambda']
+                pre, at_ = lid.split('operator()', 1)[0], lid.rsplit('@', 1)[1]
+                inst = [h for k_, h in p.funcs.items() if k_.startswith(pre + 'operator()') and k_.endswith('@' + at_) and h.body is not None]
+                g = inst[0] if len(inst) == 1 else None
+            if g is not None and g.body is not None and name_:
+                inner = [x for x in g.all_nodes() if x['k'] == 'DeclRefExpr' and (x.get('ref') or {}).get('n') == name_]
+                verdicts = [_classify_use(p, g, x, _depth + 1)[0] for x in inner]
+                if all(v == 'harmless' for v in verdicts):
+                    return 'harmless', 'lambda-capture'
+            raise AnalysisBroken('C05: a transposition-table move is captured by the lambda at %s; what the lambda does with it is not '
+                                 'followed' % f.loc(par))
         return 'sensitive', k
 
 
@@ -718,5 +734,16 @@ def _ptr_use(f, n):
                 cur = par
                 continue
             return 'read'
+        cn_ = (par.get('callee') or {}).get('n', '') if k == 'CallExpr' else ''
+        if cn_.startswith('std::'):
+            sn_ = short(cn_)
+            pos_ = next((i for i, a in enumerate(kids(par)[1:]) if a is cur), None)
+            if sn_ == 'iter_swap':
+                return 'swap'
+            if sn_ in ('max_element', 'min_element', 'find', 'find_if', 'count', 'count_if', 'distance', 'any_of', 'all_of', 'none_of',
+                       'accumulate', 'for_each_n') or (sn_ == 'transform' and pos_ in (0, 1)):
+                return 'read'
+            raise AnalysisBroken('C05: the move list is handed to %s at %s; whether that only permutes it is not something the rule knows'
+                                 % (cn_, f.loc(par)))
         ak = access_kind(f, cur)
         return 'read' if ak == 'read' else ak
